@@ -25,17 +25,18 @@ func VerifDir() string {
 
 // Obligation outcome as recorded in evidence and compared with the baseline.
 type Outcome struct {
-	Name    string         `json:"name"`
-	Func    string         `json:"func,omitempty"`
-	Status  string         `json:"status"` // discharged | failed | undecided | outside-subset
-	Paths   int            `json:"paths,omitempty"`
-	Trivial int            `json:"trivial_paths,omitempty"`
-	Solvers map[string]int `json:"solvers,omitempty"`
-	Seconds float64        `json:"solver_s,omitempty"`
-	Kind    string         `json:"kind,omitempty"` // vc | scan | lemma | bounded
-	Detail  string         `json:"detail,omitempty"`
-	fail    *ObligStatus
-	replay  map[string]interface{}
+	Name     string         `json:"name"`
+	Func     string         `json:"func,omitempty"`
+	Status   string         `json:"status"` // discharged | failed | undecided | outside-subset
+	Paths    int            `json:"paths,omitempty"`
+	Trivial  int            `json:"trivial_paths,omitempty"`
+	Solvers  map[string]int `json:"solvers,omitempty"`
+	Seconds  float64        `json:"solver_s,omitempty"`
+	Kind     string         `json:"kind,omitempty"` // vc | scan | lemma | bounded
+	Detail   string         `json:"detail,omitempty"`
+	fail     *ObligStatus
+	replay   map[string]interface{}
+	keyModel map[string]string
 }
 
 type KnownFinding struct {
@@ -118,7 +119,7 @@ func clauseServes(c *sym.Clause, id string) bool {
 // contractServes: a function is under contract for property id when one of its clauses
 // carries the id as name prefix.
 func contractServes(ct *sym.Contract, id string) bool {
-	for _, cs := range [][]*sym.Clause{ct.Requires, ct.Ensures, ct.OnPanic, ct.Mints, ct.Burns, ct.Commutes} {
+	for _, cs := range [][]*sym.Clause{ct.Requires, ct.Ensures, ct.OnPanic, ct.Mints, ct.Burns, ct.Commutes, ct.Callers} {
 		for _, c := range cs {
 			if clauseServes(c, id) {
 				return true
@@ -183,6 +184,11 @@ func (e *Engine) RunContracts(pc *PropertyCheck, timeout time.Duration, maxPaths
 		}
 		full := shortPkg(fn) + "." + fkey
 		pc.Funcs = append(pc.Funcs, full)
+		for _, cl := range ct.Callers {
+			if clauseServes(cl, pc.ID) {
+				e.callersObligation(pc, fn, cl)
+			}
+		}
 		fr := e.Env.VerifyFunc(fn, ct, maxPaths)
 		for _, cc := range ct.Commutes {
 			if !clauseServes(cc, pc.ID) {
@@ -427,6 +433,9 @@ func (e *Engine) Finish(pc *PropertyCheck, level, technique string, extraAssumpt
 		for i, k := range known.Findings {
 			if matches(k, o) {
 				{
+					if o.replay != nil {
+						e.writeReplay(pc, o, "known finding (recorded in known_findings.json)")
+					}
 					if !knownHit[i] {
 						knownHit[i] = true
 						line := fmt.Sprintf("KNOWN-FINDING: property=%s %s — %s", pc.ID, o.Name, k.What)
@@ -475,6 +484,9 @@ func (e *Engine) Finish(pc *PropertyCheck, level, technique string, extraAssumpt
 			for i, k := range known.Findings {
 				if matches(k, o) {
 					isKnown = true
+					if o.replay != nil {
+						e.writeReplay(pc, o, "known finding (recorded in known_findings.json)")
+					}
 					if !knownHit[i] {
 						knownHit[i] = true
 						line := fmt.Sprintf("KNOWN-FINDING: property=%s %s — %s", pc.ID, o.Name, k.What)
@@ -775,4 +787,53 @@ func (e *Engine) frameOnlyObligation(pc *PropertyCheck, ct *sym.Contract) {
 		o.Detail = "the function may write " + fmt.Sprint(missing) + " (call-graph inference), which its modifies clause does not list"
 	}
 	pc.Outcomes = append(pc.Outcomes, o)
+}
+
+// callersObligation: the static callers of fn (in the SSA of all elys packages, tests and
+// mocks excluded) are exactly among the functions the clause lists.
+func (e *Engine) callersObligation(pc *PropertyCheck, fn *ssa.Function, cl *sym.Clause) {
+	allowed := map[string]bool{}
+	for _, a := range strings.Split(cl.Src, ",") {
+		if a = strings.ReplaceAll(strings.TrimSpace(a), " ", ""); a != "" {
+			allowed[a] = true
+		}
+	}
+	f := e.Frames()
+	var bad, seen []string
+	for caller, callees := range f.edges {
+		for _, c := range callees {
+			if c != fn {
+				continue
+			}
+			root := rootFn(caller)
+			p := e.Prog.Fset.Position(root.Pos())
+			if strings.HasSuffix(p.Filename, "_test.go") || isTestOrMock(pkgOfFn(root)) || root.Synthetic != "" {
+				continue
+			}
+			k := sym.FuncKey(root)
+			seen = append(seen, shortPkg(root)+"."+k)
+			if !allowed[k] && root != fn {
+				bad = append(bad, shortPkg(root)+"."+k)
+			}
+		}
+	}
+	sort.Strings(bad)
+	sort.Strings(seen)
+	name := shortPkg(fn) + "." + sym.FuncKey(fn) + "/callers:" + cl.Name
+	o := &Outcome{Name: name, Func: shortPkg(fn) + "." + sym.FuncKey(fn), Status: "discharged", Kind: "scan", Detail: "called only from " + strings.Join(uniq(seen), ", ")}
+	if len(bad) > 0 {
+		o.Status = "failed"
+		o.Detail = "also called from " + strings.Join(uniq(bad), ", ")
+	}
+	pc.Outcomes = append(pc.Outcomes, o)
+}
+
+func uniq(xs []string) []string {
+	var out []string
+	for i, x := range xs {
+		if i == 0 || x != xs[i-1] {
+			out = append(out, x)
+		}
+	}
+	return out
 }
